@@ -32,6 +32,23 @@ pub enum YieldKind {
     Sleep = 5,
     /// Harness-issued yield (between client operations).
     Client = 6,
+    /// A mutex guard is being dropped (the moment a thread lets go of a lock without entering an
+    /// `unlocked_fair` section: the end of a critical section).
+    GuardDrop = 7,
+    /// The guard of the database mutex (`Mutex<GuardedDbFields>`) is being dropped: the thread stops
+    /// holding the one lock every property about concurrency is stated relative to.
+    DbGuardDrop = 8,
+}
+
+/// A client asks the scheduler to line the start of its next operation up with a point another
+/// task reaches: the caller is held back until some other task has reached its `nth` scheduling
+/// point of a kind in `mask` (bit k = `YieldKind` k), that task is then parked there and the caller
+/// runs until it blocks or finishes. If everybody else blocks first the request is dropped.
+#[derive(Clone, Copy, Debug, PartialEq, Eq)]
+pub struct AlignReq {
+    pub caller: usize,
+    pub mask: u16,
+    pub nth: u32,
 }
 
 #[derive(Clone, Debug)]
@@ -53,7 +70,7 @@ pub struct RunCtx {
     pub probes: BTreeMap<&'static str, u64>,
     pub panics: Vec<PanicRecord>,
     pub sleeps: u64,
-    pub yields: [u64; 8],
+    pub yields: [u64; 16],
     /// Set by the harness when the run's verdict is already decided and clients should stop.
     pub poisoned: bool,
     /// Number of threads spawned through this runtime so far (shuttle task ids are handed out
@@ -75,6 +92,7 @@ thread_local! {
     static PANICKING_TASK: Cell<Option<usize>> = const { Cell::new(None) };
     static SCHEDULED_TASK: Cell<Option<usize>> = const { Cell::new(None) };
     static LAST_PANIC: RefCell<Option<(String, String)>> = const { RefCell::new(None) };
+    static ALIGN_REQ: Cell<Option<AlignReq>> = const { Cell::new(None) };
 }
 
 pub fn install(ctx: RunCtx) {
@@ -83,6 +101,29 @@ pub fn install(ctx: RunCtx) {
     PANICKING_TASK.with(|c| c.set(None));
     SCHEDULED_TASK.with(|c| c.set(None));
     LAST_PANIC.with(|c| *c.borrow_mut() = None);
+    ALIGN_REQ.with(|c| c.set(None));
+}
+
+/// See [`AlignReq`]. A scheduling point of its own, so the scheduler sees the request at once.
+pub fn align_request(mask: u16, nth: u32) {
+    if std::thread::panicking() || mask == 0 || nth == 0 {
+        return;
+    }
+    ALIGN_REQ.with(|c| c.set(Some(AlignReq { caller: current_task(), mask, nth })));
+    sched_point(YieldKind::Client);
+}
+
+pub fn take_align_request() -> Option<AlignReq> {
+    ALIGN_REQ.with(|c| c.take())
+}
+
+/// Classify the scheduling point the calling task is about to reach inside a primitive (no switch).
+#[inline]
+pub fn note_yield(kind: YieldKind) {
+    if !std::thread::panicking() {
+        LAST_YIELD.with(|c| c.set(kind as u8));
+        with_ctx(|c| c.yields[kind as usize] += 1);
+    }
 }
 
 pub fn take() -> RunCtx {
